@@ -237,6 +237,7 @@ MC_FAMILIES = {  # cfg file, (quick depth, thorough depth)
     "stagger": ("MC_Stagger.cfg", (12, 14)),
     "valset": ("MC_ValSet.cfg", (4, 6)),          # three validators, two active: set rotation in the staking end-blocker
     "capacity": ("MC_Capacity.cfg", (5, 7)),      # capacity sizes around the rounding boundaries, holder of a shard and a free provider, rewards in between
+    "debtreward": ("MC_Debt.cfg", (6, 7)),       # the debt family in a world WITH a block reward (6 per block): claims smaller than, equal to and larger than the debt
     "rewardage": ("MC_Reward.cfg", (6, 7)),      # the reward family from a genesis 5000 coins before the subsidy's first halving
 }
 MC_FAMILY_CFG = {"accounts": 8, "dids": 2, "validators": 2, "balance": 10000000, "blockReward": 840}
@@ -277,6 +278,8 @@ def family_gcfg(fam):
     gcfg = MC_CFG if fam in ("timeout", "sponsor", "migrate", "version", "debt", "stagger") else MC_FAMILY_CFG   # long time jumps: no block reward there
     if fam == "rewardage":
         gcfg = dict(MC_FAMILY_CFG, blockReward=2520, rewardBase="199999999995000")
+    if fam == "debtreward":
+        gcfg = dict(MC_CFG, blockReward=6)                 # small: the accumulator stays within 32 bits over the family's time jumps
     if fam == "fault":
         gcfg = GEN_CFG                                     # a03 is a fishman
     if fam == "valset":
@@ -302,7 +305,7 @@ def _simulate_family(args):
     if rc != 0:
         raise MachineryError("genesis failed: " + o[-1000:])
     cfg0 = open(os.path.join(d, cfgfile)).read()
-    cfg0 = _re.sub(r"Family = \"\w+\"", 'Family = "%s"' % ("reward" if fam == "rewardage" else fam), cfg0)
+    cfg0 = _re.sub(r"Family = \"\w+\"", 'Family = "%s"' % {"rewardage": "reward", "debtreward": "debt"}.get(fam, fam), cfg0)
     cfg0 = "\n".join(l for l in cfg0.splitlines() if not l.startswith(("INVARIANT", "CONSTRAINT", "VIEW"))) + "\nCONSTRAINT DumpBehaviour\n"
     have = []
     # a behaviour is written when a walk reaches the depth; the life cycles of some families end earlier (everything is
